@@ -4,7 +4,8 @@
   never retransmitted; once PUBREL was sent for a QoS 2 message no PUBLISH for it follows, only PUBREL
   with the same identifier. For every script (all event lists, fault lists, configurations) in which
   the application submits each message index at most once; `.waitElapsed`, `.cancelCtx` and Disconnect
-  in any phase of the reconnect loop are not restricted.
+  in any phase of the reconnect loop are not restricted, nor is the dialer (`cfg.deafDialer`: a dialer
+  that ignores the Connect context, see the `demoDeaf…` scripts at the end).
   Property theorems only; the invariant (`Mqtt.Retry.PInv`, `Inv12`) lives in Proofs/RetryMsg.
 -/
 import MqttVerif.Proofs.RetryMsg
@@ -253,6 +254,102 @@ example : (exec demoCancelLate).ctxCancelled = false ∧
 
 example : demoNoWait.DistinctMsgs ∧ demoDiscBackoff.DistinctMsgs ∧ demoDiscDial.DistinctMsgs ∧
     demoCancel.DistinctMsgs ∧ demoCancelLate.DistinctMsgs := by
+  unfold Script.DistinctMsgs; decide
+
+/-! A dialer that ignores its context (`cfg.deafDialer`, e.g. `NoContextDialer`). The theorems above
+    hold for every configuration, this one included; the scripts below reach the branches of `step`
+    that only such a dialer makes reachable. -/
+
+/-- the Connect context is cancelled while the FIRST dial is in flight and the dialer does not
+    notice: Connect returns the context's error at once, the loop stays inside DialContext
+    (`.dialGate`); when the transport arrives (`.dialOk`) CONNECT is written on it, the client is
+    closed and the loop exits. The connection carries only CONNECT and is dead; the request accepted
+    before is attempted once on it (DUP = 0, identifier 11, `.dead`), its handle stays queued, and
+    nothing is dialled again -/
+def demoDeafOk : Script :=
+  { cfg := { deafDialer := true },
+    evs := [.start, .app (.pub 1 2), .cancelCtx, .dialOk 10, .waitElapsed, .dialOk 20,
+            .connackOk true []] }
+
+example : (exec { demoDeafOk with evs := demoDeafOk.evs.take 3 }).phase = .dialGate ∧
+    (exec { demoDeafOk with evs := demoDeafOk.evs.take 3 }).connectErr = true ∧
+    (exec { demoDeafOk with evs := demoDeafOk.evs.take 3 }).conns.length = 0 ∧
+    (exec { demoDeafOk with evs := demoDeafOk.evs.take 4 }).phase = .exited ∧
+    (exec { demoDeafOk with evs := demoDeafOk.evs.take 4 }).conns.map (·.pkts)
+      = [[(.connect, .sent .ok), (.publish 1 2 11 false, .dead)]] ∧
+    (exec { demoDeafOk with evs := demoDeafOk.evs.take 4 }).conns.map (·.alive) = [false] ∧
+    (exec { demoDeafOk with evs := demoDeafOk.evs.take 4 }).conns.map (·.connected) = [false] := by
+  decide
+
+example : (exec demoDeafOk).phase = .exited ∧ (exec demoDeafOk).connectErr = true ∧
+    (exec demoDeafOk).connectReturned = none ∧ (exec demoDeafOk).initialized = false ∧
+    (exec demoDeafOk).dials = 1 ∧ (exec demoDeafOk).waits = [] ∧
+    (exec demoDeafOk).conns.length = 1 ∧ (exec demoDeafOk).cli = some 0 ∧
+    allPkts (exec demoDeafOk) = [(.connect, .sent .ok), (.publish 1 2 11 false, .dead)] ∧
+    pubsOf (exec demoDeafOk) 1 = [(2, 11, false, .dead)] ∧
+    (exec demoDeafOk).retryQ = [.rePublish 1 2] ∧
+    (exec demoDeafOk).broker.delivered = [] := by decide
+
+/-- without the request: the connection carries CONNECT and nothing else -/
+example : allPkts (exec { demoDeafOk with evs := [.start, .cancelCtx, .dialOk 10] })
+      = [(.connect, .sent .ok)] ∧
+    (exec { demoDeafOk with evs := [.start, .cancelCtx, .dialOk 10] }).conns.map (·.alive) = [false] ∧
+    (exec { demoDeafOk with evs := [.start, .cancelCtx, .dialOk 10] }).phase = .exited ∧
+    (exec { demoDeafOk with evs := [.start, .cancelCtx, .dialOk 10] }).connectErr = true := by decide
+
+/-- the same, but the dial that outlived the cancellation fails: the loop exits through its select
+    on `ctx.Done()` without a back-off wait; no connection was ever made, the request stays in the
+    task queue, un-attempted -/
+def demoDeafFail : Script :=
+  { cfg := { deafDialer := true },
+    evs := [.start, .app (.pub 1 2), .cancelCtx, .dialFail, .waitElapsed, .dialOk 20,
+            .connackOk true []] }
+
+example : (exec { demoDeafFail with evs := demoDeafFail.evs.take 3 }).phase = .dialGate ∧
+    (exec { demoDeafFail with evs := demoDeafFail.evs.take 4 }).phase = .exited ∧
+    (exec demoDeafFail).phase = .exited ∧ (exec demoDeafFail).connectErr = true ∧
+    (exec demoDeafFail).waits = [] ∧ (exec demoDeafFail).dials = 1 ∧
+    (exec demoDeafFail).conns.length = 0 ∧ pubsOf (exec demoDeafFail) 1 = [] ∧
+    (exec demoDeafFail).taskQ = [.req (.pub 1 2)] ∧ (exec demoDeafFail).retryQ = [] := by decide
+
+/-- Connect is called with a context that is already done: the deaf dialer dials all the same
+    (`.dialGate`, Connect has returned the error); the result of that dial is acted upon as above -/
+def demoDeafPre : Script :=
+  { cfg := { deafDialer := true }, evs := [.cancelCtx, .start, .app (.pub 1 2), .dialOk 10] }
+
+example : (exec { demoDeafPre with evs := demoDeafPre.evs.take 2 }).phase = .dialGate ∧
+    (exec { demoDeafPre with evs := demoDeafPre.evs.take 2 }).connectErr = true ∧
+    (exec { demoDeafPre with evs := demoDeafPre.evs.take 2 }).dials = 1 ∧
+    (exec demoDeafPre).phase = .exited ∧
+    allPkts (exec demoDeafPre) = [(.connect, .sent .ok), (.publish 1 2 11 false, .dead)] ∧
+    (exec demoDeafPre).conns.map (·.alive) = [false] := by decide
+
+/-- the same three scripts with a dialer that honours its context (`deafDialer := false`): the
+    cancellation ends the dial and the loop, `.dialOk` / `.dialFail` find nothing to act on -/
+example : (exec { demoDeafOk with cfg := {} }).phase = .exited ∧
+    (exec { demoDeafOk with cfg := {}, evs := demoDeafOk.evs.take 3 }).phase = .exited ∧
+    (exec { demoDeafOk with cfg := {} }).conns.length = 0 ∧
+    (exec { demoDeafOk with cfg := {} }).connectErr = true ∧
+    (exec { demoDeafFail with cfg := {} }).conns.length = 0 ∧
+    (exec { demoDeafFail with cfg := {} }).waits = [] ∧
+    (exec { demoDeafPre with cfg := {}, evs := demoDeafPre.evs.take 2 }).phase = .exited ∧
+    (exec { demoDeafPre with cfg := {} }).conns.length = 0 := by decide
+
+/-- a deaf dial that is still in flight when Disconnect is called as well: Disconnect does not
+    interrupt it either; the late transport gets CONNECT and is closed, the DISCONNECT task then runs
+    on the closed client -/
+def demoDeafDisc : Script :=
+  { cfg := { deafDialer := true }, evs := [.start, .cancelCtx, .disconnect, .dialOk 10] }
+
+example : (exec { demoDeafDisc with evs := demoDeafDisc.evs.take 3 }).phase = .dialGate ∧
+    (exec demoDeafDisc).phase = .exited ∧
+    allPkts (exec demoDeafDisc) = [(.connect, .sent .ok), (.disconnect, .dead)] ∧
+    (exec { demoDeafDisc with evs := [.start, .cancelCtx, .disconnect, .dialFail] }).phase = .exited ∧
+    (exec { demoDeafDisc with evs := [.start, .cancelCtx, .disconnect, .dialFail] }).waits = [] := by
+  decide
+
+example : demoDeafOk.DistinctMsgs ∧ demoDeafFail.DistinctMsgs ∧ demoDeafPre.DistinctMsgs ∧
+    demoDeafDisc.DistinctMsgs := by
   unfold Script.DistinctMsgs; decide
 
 end Mqtt.C12
